@@ -380,6 +380,64 @@ def _filtered_iteration(tree):
         node.body = [iff]
 
 
+_SCOPE_COUNTER = [0]
+
+
+def _scope_blocks(tree):
+    """``with <manager>.writer.using(ctx): BODY`` (or ``.reader.using``) in
+    a function is the same transaction scope as a local closure decorated
+    with ``@<manager>.writer`` that takes the context and is called at once
+    - the idiom the reference tree uses.  ``.independent`` scopes are left
+    alone (they are a different kind of scope, decided by their own rule).
+    Assignments inside the block become locals of the closure, which only
+    matters to rules that track a value out of the block."""
+    for fn in [n for n in ast.walk(tree) if isinstance(n, ast.FunctionDef)]:
+        for node in list(ast.walk(fn)):
+            for fld in ('body', 'orelse', 'finalbody'):
+                blk = getattr(node, fld, None)
+                if not (isinstance(blk, list) and blk and isinstance(
+                        blk[0], ast.stmt)):
+                    continue
+                i = 0
+                while i < len(blk):
+                    st = blk[i]
+                    i += 1
+                    if not (isinstance(st, ast.With) and len(
+                            st.items) == 1 and st.items[0].optional_vars
+                            is None):
+                        continue
+                    e = st.items[0].context_expr
+                    if not (isinstance(e, ast.Call) and isinstance(
+                            e.func, ast.Attribute) and e.func.attr ==
+                            'using' and len(e.args) == 1 and isinstance(
+                                e.func.value, ast.Attribute)
+                            and e.func.value.attr in ('writer', 'reader')):
+                        continue
+                    if any(isinstance(x, (ast.Return, ast.Yield))
+                           for s_ in st.body for x in ast.walk(s_)):
+                        continue
+                    _SCOPE_COUNTER[0] += 1
+                    name = '_scope_block_%d' % _SCOPE_COUNTER[0]
+                    ctx_arg = e.args[0]
+                    pname = ctx_arg.id if isinstance(
+                        ctx_arg, ast.Name) else 'ctx'
+                    fdef = ast.FunctionDef(
+                        name=name,
+                        args=ast.arguments(
+                            posonlyargs=[], args=[ast.arg(arg=pname)],
+                            kwonlyargs=[], kw_defaults=[], defaults=[]),
+                        body=st.body, decorator_list=[e.func.value],
+                        returns=None, type_params=[])
+                    call = ast.Expr(value=ast.Call(
+                        func=ast.Name(id=name, ctx=ast.Load()),
+                        args=[ctx_arg], keywords=[]))
+                    ast.copy_location(fdef, st)
+                    ast.copy_location(call, st)
+                    blk[i - 1:i] = [fdef, call]
+                    i += 1
+    ast.fix_missing_locations(tree)
+
+
 def _conditional_expressions(tree):
     """``x = a if c else b`` / ``return a if c else b`` (the conditional
     expression is the whole value) is the if / else statement."""
@@ -430,6 +488,7 @@ def normalise(tree):
     4. in a loop body ``if c: continue`` + rest  ->  ``if not c: rest``
     Each step is semantics-preserving for any program."""
     _unroll_table_loops(tree)
+    _scope_blocks(tree)
     _plain_idioms(tree)
     _filtered_iteration(tree)
     _conditional_expressions(tree)
